@@ -3,6 +3,5 @@
 set -e
 export CARGO_NET_OFFLINE=true
 cd /verif/harness
-cp /repo/Cargo.lock Cargo.lock 2>/dev/null || true
 cargo build -q -p mon
 echo "setup ok"
